@@ -327,7 +327,86 @@ func (s *smtScript) assert(f string) {
 	if f == "true" {
 		return
 	}
+	if strings.Contains(f, "(exists ") {
+		f = s.skolemizeHyp(f, true, nil)
+	}
 	s.asserts = append(s.asserts, f)
+}
+
+// skolemizeHyp replaces existential quantifiers in positive positions of a hypothesis by Skolem functions of the
+// universally quantified variables in scope (equisatisfiable), so that the witnesses have names the goal-directed
+// instantiation can use.
+func (s *smtScript) skolemizeHyp(f string, pos bool, bound [][2]string) string {
+	parts := splitSexp(f)
+	if len(parts) == 0 {
+		return f
+	}
+	rec := func(x string, p bool) string { return s.skolemizeHyp(x, p, bound) }
+	switch parts[0] {
+	case "and", "or":
+		out := []string{parts[0]}
+		for _, p := range parts[1:] {
+			out = append(out, rec(p, pos))
+		}
+		return "(" + strings.Join(out, " ") + ")"
+	case "not":
+		if len(parts) == 2 {
+			return "(not " + rec(parts[1], !pos) + ")"
+		}
+	case "=>":
+		if len(parts) == 3 {
+			return "(=> " + rec(parts[1], !pos) + " " + rec(parts[2], pos) + ")"
+		}
+	case "!":
+		if len(parts) >= 2 {
+			return "(! " + rec(parts[1], pos) + " " + strings.Join(parts[2:], " ") + ")"
+		}
+	case "forall", "exists":
+		if len(parts) != 3 {
+			return f
+		}
+		univ := (parts[0] == "forall") == pos // behaves as a universal quantifier of the hypothesis
+		vars := splitSexp(parts[1])
+		if univ {
+			nb := append([][2]string{}, bound...)
+			for _, v := range vars {
+				vp := splitSexp(v)
+				if len(vp) != 2 {
+					return f
+				}
+				nb = append(nb, [2]string{vp[0], vp[1]})
+			}
+			return "(" + parts[0] + " " + parts[1] + " " + s.skolemizeHyp(parts[2], pos, nb) + ")"
+		}
+		// existential in effect: only a positive "exists" is skolemized (a negative "forall" is left alone)
+		if parts[0] != "exists" {
+			return f
+		}
+		body := parts[2]
+		for _, v := range vars {
+			vp := splitSexp(v)
+			if len(vp) != 2 {
+				return f
+			}
+			s.fresh++
+			name := qsym(fmt.Sprintf("skf!%d!%s", s.fresh, strings.Trim(vp[0], "|")))
+			var args, argSorts []string
+			for _, b := range bound {
+				args = append(args, b[0])
+				argSorts = append(argSorts, b[1])
+			}
+			app := name
+			if len(args) > 0 {
+				s.declareFun(name, argSorts, vp[1])
+				app = "(" + name + " " + strings.Join(args, " ") + ")"
+			} else {
+				s.declare(name, vp[1])
+			}
+			body = replaceSymbol(body, vp[0], app)
+		}
+		return s.skolemizeHyp(body, pos, bound)
+	}
+	return f
 }
 func (s *smtScript) freshName(hint string) string {
 	s.fresh++
@@ -457,6 +536,70 @@ func skolemizeGoal(goal string, counter *int) (string, []string) {
 	return goal, nil
 }
 
+// expandGoalExists rewrites every positive (exists ((x Int)) B) of a goal into (or B[t1/x] ... B[tn/x] (exists ((x Int)) B))
+// for the candidate terms (equivalent; it hands the solver the likely witnesses).
+func expandGoalExists(goal string, terms []string) string {
+	parts := splitSexp(strings.TrimSpace(goal))
+	if len(parts) == 0 {
+		return goal
+	}
+	switch parts[0] {
+	case "exists":
+		if len(parts) != 3 {
+			return goal
+		}
+		vars := splitSexp(parts[1])
+		if len(vars) != 1 {
+			return goal
+		}
+		vp := splitSexp(vars[0])
+		if len(vp) != 2 || vp[1] != "Int" {
+			return goal
+		}
+		out := []string{"or"}
+		for _, t := range terms {
+			out = append(out, replaceSymbol(parts[2], vp[0], t))
+		}
+		out = append(out, goal)
+		return "(" + strings.Join(out, " ") + ")"
+	case "=>":
+		if len(parts) == 3 {
+			return "(=> " + parts[1] + " " + expandGoalExists(parts[2], terms) + ")"
+		}
+	case "and", "or":
+		out := []string{parts[0]}
+		for _, p := range parts[1:] {
+			out = append(out, expandGoalExists(p, terms))
+		}
+		return "(" + strings.Join(out, " ") + ")"
+	}
+	return goal
+}
+
+// skolemApps collects the applications of hypothesis Skolem functions (|skf!...|) occurring in s.
+func skolemApps(s string, out map[string]bool) {
+	for i := 0; i < len(s); i++ {
+		if strings.HasPrefix(s[i:], "(|skf!") {
+			depth := 0
+			for j := i; j < len(s); j++ {
+				if s[j] == '(' {
+					depth++
+				} else if s[j] == ')' {
+					depth--
+					if depth == 0 {
+						out[s[i:j+1]] = true
+						break
+					}
+				}
+			}
+		} else if strings.HasPrefix(s[i:], "|skf!") && (i == 0 || s[i-1] != '(') {
+			if j := strings.Index(s[i+1:], "|"); j >= 0 {
+				out[s[i:i+j+2]] = true
+			}
+		}
+	}
+}
+
 // replaceSymbol substitutes whole-token occurrences of sym in an S-expression string.
 func replaceSymbol(s, sym, by string) string {
 	var b strings.Builder
@@ -503,7 +646,7 @@ func selectIndexTerms(s string, out map[string]bool) {
 }
 
 // groundInstances instantiates the positively-occurring single-sorted Int quantifiers of assertion a with terms.
-func groundInstances(a string, terms []string, budget *int) []string {
+func groundInstances(a string, terms []string, ctx []string, budget *int) []string {
 	parts := splitSexp(a)
 	if len(parts) == 0 || *budget <= 0 {
 		return nil
@@ -514,14 +657,14 @@ func groundInstances(a string, terms []string, budget *int) []string {
 			return nil
 		}
 		var out []string
-		for _, c := range groundInstances(parts[2], terms, budget) {
+		for _, c := range groundInstances(parts[2], terms, ctx, budget) {
 			out = append(out, "(=> "+parts[1]+" "+c+")")
 		}
 		return out
 	case "and":
 		var out []string
 		for _, p := range parts[1:] {
-			out = append(out, groundInstances(p, terms, budget)...)
+			out = append(out, groundInstances(p, terms, ctx, budget)...)
 		}
 		return out
 	case "forall":
@@ -532,6 +675,48 @@ func groundInstances(a string, terms []string, budget *int) []string {
 		body := parts[2]
 		if bp := splitSexp(body); len(bp) >= 2 && bp[0] == "!" {
 			body = bp[1]
+		}
+		if len(vars) == 2 {
+			// two Int variables: all ordered pairs of the first few terms (skolems come first in terms)
+			v0, v1 := splitSexp(vars[0]), splitSexp(vars[1])
+			if len(v0) != 2 || len(v1) != 2 || v0[1] != "Int" || v1[1] != "Int" {
+				return nil
+			}
+			var ints []string
+			for _, t := range terms {
+				if strings.HasPrefix(t, "(mk-iface ") || (strings.HasPrefix(t, "|sk!") && strings.Contains(t, "!Iface!")) {
+					continue
+				}
+				ints = append(ints, t)
+				if strings.HasPrefix(t, "|sk!") {
+					ints = append(ints, "(+ "+t+" 1)") // shifted positions (element removal / insertion)
+				}
+				if len(ints) >= 6 {
+					break
+				}
+			}
+			// loop counters and other short index terms of the code (the usual second component)
+			for _, t := range ctx {
+				if len(ints) >= 10 {
+					break
+				}
+				ints = append(ints, t)
+			}
+			var out []string
+			for _, a := range ints {
+				for _, b := range ints {
+					if a == b || *budget <= 0 {
+						continue
+					}
+					*budget--
+					inst := replaceSymbol(replaceSymbol(body, v0[0], a), v1[0], b)
+					if strings.Contains(inst, "(forall ") || strings.Contains(inst, "(exists ") {
+						continue
+					}
+					out = append(out, inst)
+				}
+			}
+			return out
 		}
 		if len(vars) != 1 {
 			return nil
@@ -553,7 +738,7 @@ func groundInstances(a string, terms []string, budget *int) []string {
 			inst := replaceSymbol(body, vp[0], t)
 			if strings.Contains(inst, "(forall ") {
 				// nested quantifier: instantiate the inner one too
-				for _, c := range groundInstances(inst, terms, budget) {
+				for _, c := range groundInstances(inst, terms, ctx, budget) {
 					out = append(out, c)
 				}
 				continue
